@@ -326,6 +326,18 @@ func (g *gstate) genValue(typ reflect.Type, d int) reflect.Value {
 		case 1:
 			v.Set(reflect.MakeSlice(typ, 0, 0))
 			return v
+		case 2:
+			if g.big && d <= 1 {
+				// long and sparse: hundreds to thousands of zero elements (nil slices, nil maps, zero
+				// structs take a byte or so on the wire and tens of bytes in memory) and a few real ones
+				n := rapid.SampledFrom([]int{513, 700, 2000, 6000}).Draw(g.t, "sparse-len")
+				s := reflect.MakeSlice(typ, n, n)
+				for k := rapid.IntRange(0, 3).Draw(g.t, "sparse-filled"); k > 0; k-- {
+					s.Index(rapid.IntRange(0, n-1).Draw(g.t, "sparse-at")).Set(g.genValue(typ.Elem(), d+1))
+				}
+				v.Set(s)
+				return v
+			}
 		}
 		n := g.length(d)
 		s := reflect.MakeSlice(typ, n, n)
